@@ -243,6 +243,13 @@ func ruleCacheMiddleware(c *Ctx, a *serverAnchors, want map[string]bool) {
 				}
 				if e.Kind == "call" && e.Callee == a.setAge && e.Args[1].Op == "call" && e.Args[1].Fn == ca.Age && e.Args[1].Args[0].Key() == HC.Key() {
 					okAge = true
+					// the age is read after the lookup (which is what loads a persisted entry)
+					for j, e2 := range pr.Events {
+						if e2.Kind == "call" && e2.Callee == ca.Age && e2.Result != nil && e2.Result.Key() == e.Args[1].Key() && j < getAt {
+							okAge = false
+							report("hit-age", "the entry's Age() is read before the lookup: an entry that the lookup restores from the store still has no creation time then (Age = the current unix time) on "+where)
+						}
+					}
 				}
 			}
 			if !okResp {
@@ -1081,6 +1088,11 @@ func ruleProxyMiddleware(c *Ctx, a *serverAnchors, want map[string]bool) {
 						if !(len(e.Args) == 2 && e.Args[1].Key() == l.Atom.Args[0].Key()) {
 							report("proxy-deadline", "the deadline is "+prettyTerm(e.Args[1])+", not the location's proxy timeout on "+where)
 						}
+						// the deadline is added to the request's own context (net/http's server context travels with it:
+						// the reverse proxy aborts the client connection on a broken upstream body only when it finds it)
+						if par := e.Args[0]; !(par.Op == "call" && par.Fn != nil && par.Fn.Name() == "Context") {
+							report("proxy-deadline", "the timeout context is derived from "+prettyTerm(par)+", not from the request's context: cancellation and the server context are lost (a body cut short by the upstream is delivered, and stored, as complete) on "+where)
+						}
 					}
 					if wt != nil && e.Kind == "call" && e.Callee != nil && strings.HasSuffix(e.Callee.String(), "Context).WithContext") && e.Args[1].Key() == ext(wt.Result, 0).Key() {
 						withCtx = true
@@ -1091,9 +1103,8 @@ func ruleProxyMiddleware(c *Ctx, a *serverAnchors, want map[string]bool) {
 				}
 				if wt == nil || !withCtx {
 					report("proxy-deadline", "a proxy timeout is configured but the upstream call runs without a context carrying it (a hung upstream never ends the fetch) on "+where)
-				} else if !deferred {
-					report("proxy-deadline", "the timeout context is not cancelled (defer cancel) on "+where)
 				}
+				_ = deferred // releasing the timer early is hygiene; no property depends on it
 			}
 		}
 		errT := pr.Events[P].Result
